@@ -275,9 +275,17 @@ def verified (items : List (Str × List α × List α)) : Bool :=
 
 def summaries (sel : List (Entry α)) : Option (List (Summary α)) := sel.mapM fun e => summary e.dtg e.t
 
-/-- Last stage: the final comparison of the processed time arrays, then the writer chosen by the extension. -/
+/-- `common_time_array.size == 0`: the first (hence, after the comparison, every) processed time array holds no sample. -/
+def noSamples (items : List (Str × List α × List α)) : Bool :=
+  match items with
+  | (_, [], _) :: _ => true
+  | _ => false
+
+/-- Last stage: the final comparison of the processed time arrays, the refusal of series without samples (no format can
+hold them so that they can be loaded again), then the writer chosen by the extension. -/
 def stageWrite (r : Req α) (pre : List (Effect α)) (items : List (Str × List α × List α)) : List (Effect α) :=
   if !verified items then pre ++ [.raise .value]
+  else if noSamples items then pre ++ [.raise .value]
   else
     match r.ext with
     | .other => pre ++ [.raise .notImplemented]
